@@ -4,6 +4,10 @@ import Ruint.Lemmas.Div.NArr
 import Ruint.Lemmas.Div.GenTie
 import Ruint.Lemmas.Div.GenLoops
 import Ruint.Lemmas.Div.LimbBridge
+import Ruint.Lemmas.Div.GenSmall
+import Ruint.Lemmas.Div.GenKnuthN
+import Ruint.Lemmas.Div.GenKnuth
+import Ruint.Lemmas.Div.GenDispatch
 /-!
 # C14 — limb-slice division kernels meet their documented contracts
 
@@ -243,5 +247,50 @@ theorem gen_div_nx2_normalized_eq (u : List ℕ) (d : ℕ) (hu : AllLt u) (h1 : 
     (h64 : u.length < 2 ^ 64) (f : ℕ) (hf : u.length < f) :
     Ruint.Gen.div_nx2_normalized f u d = divNx2Normalized u d :=
   Ruint.Div.GenLoops.div_nx2_normalized_eq u d hu h1 h2 h64 f hf
+
+/-! ### the remaining division functions, regenerated whole (`Gen/WordsKnuth.lean`)
+
+`div_nx1`, `div_nx2` (shift on the fly, raw element access), `div_nxm_normalized`, `div_nxm` (Knuth's algorithm D in place:
+sub-slices passed to `submul_nx1` / `adc_n`, the `q_high` arm, the copy-back epilogue) and the dispatcher `algorithms::div`
+(trimming re-borrows, the `expect` panic as `none`) are translated from the Rust source on every run and proved equal to the
+models the theorems above are about — for every slice length, on the functions' documented domains. With the ties of the
+word kernels (`gen_*_eq_model`) the whole division stack from `algorithms::div` down to `u64`/`u128` arithmetic is tied to
+the source by translation; the driver executes the generated functions. -/
+
+theorem gen_div_nx1_eq (limbs : List ℕ) (divisor : ℕ) (hl : AllLt limbs) (hne : limbs ≠ [])
+    (h0 : 0 < divisor) (h2 : divisor < 2 ^ 64) (h64 : limbs.length < 2 ^ 64) (f : ℕ) (hf : limbs.length < f) :
+    Ruint.Gen.div_nx1 f limbs divisor = divNx1 limbs divisor :=
+  Ruint.Div.GenSmall.div_nx1_eq limbs divisor hl hne h0 h2 h64 f hf
+
+theorem gen_div_nx2_eq (limbs : List ℕ) (divisor : ℕ) (hl : AllLt limbs) (hne : limbs ≠ [])
+    (h1 : 2 ^ 64 ≤ divisor) (h2 : divisor < 2 ^ 128) (h64 : limbs.length < 2 ^ 64) (f : ℕ) (hf : limbs.length < f) :
+    Ruint.Gen.div_nx2 f limbs divisor = divNx2 limbs divisor :=
+  Ruint.Div.GenSmall.div_nx2_eq limbs divisor hl hne h1 h2 h64 f hf
+
+/-- Knuth's algorithm D as the source defines it = the array model of `div_nxm_spec`, all lengths. -/
+theorem gen_div_nxm_eq (num ds : List ℕ) (hn : AllLt num) (hd : AllLt ds) (h3 : 3 ≤ ds.length)
+    (hlen : ds.length ≤ num.length) (htop : 0 < ds.getD (ds.length - 1) 0) (h64 : num.length < 2 ^ 64)
+    (f : ℕ) (hf : num.length + 1 < f) :
+    Ruint.Gen.div_nxm f num ds = divNxm num ds :=
+  Ruint.Div.GenKnuth.div_nxm_eq num ds hn hd h3 hlen htop h64 f hf
+
+/-- `div_nxm_normalized` as the source defines it yields the model's result whenever the model does not panic
+    (the model's `none` is the library's `debug_assert!`, which the translation does not contain). -/
+theorem gen_div_nxm_normalized_eq (num ds r : List ℕ) (hn : AllLt num) (hd : AllLt ds) (h2 : 2 ≤ ds.length)
+    (htop : 2 ^ 63 ≤ ds.getD (ds.length - 1) 0) (h64 : num.length < 2 ^ 64)
+    (hm : divNxmNormalized num ds = some r) (f : ℕ) (hf : num.length + 1 < f) :
+    Ruint.Gen.div_nxm_normalized f num ds = r :=
+  Ruint.Div.GenKnuthN.div_nxm_normalized_eq num ds r hn hd h2 htop h64 hm f hf
+
+/-- **`algorithms::div` as the source defines it = the model, totally**: every pair of word slices, including the panic on
+    a zero (or empty) divisor. -/
+theorem gen_div_eq (num ds : List ℕ) (hn : AllLt num) (hd : AllLt ds) (h64 : num.length < 2 ^ 64)
+    (hd64 : ds.length < 2 ^ 64) (f : ℕ) (hf : num.length + 1 < f) :
+    Ruint.Gen.div f num ds = Ruint.Div.div num ds :=
+  Ruint.Div.GenDispatch.div_eq_of
+    (fun l d a b c e g f h => Ruint.Div.GenSmall.div_nx1_eq l d a b c e g f h)
+    (fun l d a b c e g f h => Ruint.Div.GenSmall.div_nx2_eq l d a b c e g f h)
+    (fun n d a b c e g h f i => Ruint.Div.GenKnuth.div_nxm_eq n d a b c e g h f i)
+    num ds hn hd h64 hd64 f hf
 
 end Ruint.C14
